@@ -79,6 +79,32 @@ Definition c02_table_oracle (comp : N) (c : sx) (evs : list ev) : bool :=
   end.
 
 (* prop is the numeric part of the property id (C17 -> 17) *)
+(* C07 at the call sites (component 40, cases whose outermost constructor emits a length-prefixed object): after the
+   opcode (two bytes when it starts with the extended-opcode prefix 0x5B) the PkgLength decodes to exactly the number of
+   bytes from its own first byte to the end of the object, has the specification's lead-byte format, and is the shortest
+   encoding that can include its own size.  A refusal is not judged here (C18). *)
+Definition c07_framed_head (c : sx) : bool :=
+  match c with
+  | SL (SA k :: rest) =>
+      existsb (N.eqb k) [11; 41; 42; 43; 44; 45; 51; 60; 61; 62; 63; 64; 65]
+      || match k, rest with 30, SA 4 :: _ | 30, SA 5 :: _ => true | _, _ => false end
+  | _ => false
+  end.
+
+Definition c07_frame_oracle (c : sx) (impl : list ev) : bool :=
+  if negb (c07_framed_head c) then true else
+  match impl with
+  | [EvBytes e] =>
+      let rest := match e with 0x5B :: _ :: r => r | _ :: r => r | [] => [] end in
+      match pkg_decode rest with
+      | Some (n, body) =>
+          let pre := firstn (length rest - length body) rest in
+          (n =? N.of_nat (length rest)) && pkg_lead_format_ok pre && pkg_minimal (N.of_nat (length body)) pre
+      | None => false
+      end
+  | _ => true
+  end.
+
 Definition oracle (prop comp : N) (c : sx) (impl : list ev) : bool :=
   if 100 <=? comp then match last impl EvPanic with EvNum 0 => true | _ => false end else
   if is_table comp then
@@ -97,6 +123,7 @@ Definition oracle (prop comp : N) (c : sx) (impl : list ev) : bool :=
   match prop, comp with
   | 17, 1 => ck_oracle c impl
   | 7, 2 => pkglen_oracle c impl
+  | 7, 40 => c07_frame_oracle c impl && c06_oracle c impl
   | 18, 2 => pkglen_oracle18 c impl
   | 8, 3 => int_oracle c impl
   | 9, 4 => path_oracle c impl
@@ -117,7 +144,7 @@ Definition dec_step (acc d : N) : N := acc * 10 + d.
 (* is the case inside the domain the property's oracle actually judges? (reported as 'judged' in the evidence) *)
 Definition judged (prop comp : N) (c : sx) : bool :=
   match prop, comp with
-  | 6, 40 | 15, 40 => match expect false c with Some _ => env_consistent c | None => false end
+  | 6, 40 | 15, 40 | 7, 40 => match expect false c with Some _ => env_consistent c | None => false end
   | 10, 40 => match c with
               | SL (SA 62 :: [SL ks]) => match opt_all (map (fun d => match d with SL dl => ref_desc dl | SA _ => None end) ks) with Some _ => true | None => false end
               | SL l => match ref_desc l with Some _ => true | None => false end
